@@ -1,6 +1,7 @@
 import Cell2v.Driver.Util
 import Cell2v.Model.Sche
 import Cell2v.Model.Waterfall
+import Cell2v.Model.ScheMgr
 import Cell2v.Model.ScheCfg
 /-!
 Model driver for C15.
@@ -29,6 +30,9 @@ namespace Cell2v.Driver.C15
 open Cell2v.Driver Cell2v
 
 /-! ### small parsing helpers -/
+
+def viol (sig why : String) : String := s!"VIOLATION C15/{sig} {why}"
+
 
 def takeDigits : List Char → Nat → Bool → Option (Nat × List Char)
   | c :: cs, acc, seen =>
@@ -628,9 +632,52 @@ def stepM (s : MSt) (ws : List String) : MSt × String :=
     | none => (s, "bad-op")
   | _ => (s, "bad-op")
 
+/-! ## registry race (cases `reset kind=g`)
+
+`race name= n=N post=M`: N goroutines call `Mgr.GetSche` with the same fresh name inside a forced
+window.  Model (`Model/ScheMgr.lean`, `getSche` is one atomic lookup-or-create): all get the same,
+registered scheduler; the N·M closures posted through the handles (by one goroutine, handle after
+handle) run in that order on its consumer. -/
+
+def stepG (ws : List String) : String :=
+  match ws.head?, kvNat ws "n", kvNat ws "post" with
+  | some "race", some n, some m =>
+    if n < 1 || n > 8 || m > 50 then "bad-op" else
+    let (st, res) := (List.range n).foldl (fun (acc : ScheMgr.St × List Nat) _ =>
+      let r := ScheMgr.getSche acc.1 (.named "race"); (r.1, acc.2 ++ [r.2])) (({} : ScheMgr.St), [])
+    let distinct := res.eraseDups.length
+    let registered := if (ScheMgr.lookup st.reg (.named "race")).any (fun sc => res.contains sc) then 1 else 0
+    let ex := (List.range n).flatMap fun i => (List.range m).map fun k => s!"{i}.{k}"
+    let exs := if ex.isEmpty then "-" else ",".intercalate ex
+    let gl := if ex.isEmpty then "-" else "c"
+    s!"distinct={distinct} registered={registered} exec={exs} g={gl} ret={n * m}:0"
+  | _, _, _ => "bad-op"
+
+def specG (ws : List String) (obs : String) : Except String Unit := do
+  if obs == "bad-op" then return ()
+  match kvNat ws "n", kvNat ws "post" with
+  | some n, some m =>
+    let ows := words obs
+    match kvNat ows "distinct", kvNat ows "registered", kv ows "exec", kv ows "g", kv ows "ret" with
+    | some d, some reg, some ex, some gl, some ret =>
+      if d ≠ 1 then
+        throw (viol "same-name-different-scheduler" s!"{n} concurrent GetSche calls for one fresh name returned {d} different schedulers")
+      if reg ≠ 1 then throw (viol "same-name-different-scheduler" "the scheduler the callers got is not the registered one")
+      if ret != s!"{n * m}:0" then throw (viol "running-service-refused-post" s!"posts to the running scheduler: ok:nil = {ret}")
+      let want := (List.range n).flatMap fun i => (List.range m).map fun k => s!"{i}.{k}"
+      let got := if ex == "-" then [] else splitNonEmpty ex ","
+      if got.length < want.length then
+        throw (viol "closure-lost" s!"{want.length} closures accepted through the handles, {got.length} executed")
+      if got ≠ want then
+        if got.length > want.length then throw (viol "closure-executed-twice" ex)
+        else throw (viol "poster-order-broken" ex)
+      if !got.isEmpty && gl != "c" then throw (viol "off-scheduler-goroutine" s!"closures ran on {gl}")
+    | _, _, _, _, _ => throw (viol "unparsable-observation" obs)
+  | _, _ => throw "bad-op"
+
 /-! ## driver state and the three modes -/
 
-inductive CaseKind | none | sche | wf | multi
+inductive CaseKind | none | sche | wf | multi | race
   deriving DecidableEq
 
 /-- a line is `op<TAB>obs`; only the first tab separates (a crash report may contain tabs) -/
@@ -654,6 +701,7 @@ def resetSt (ws : List String) : St :=
   | some "w" => { kind := .wf }
   | some "s" => { kind := .sche }
   | some "m" => { kind := .multi }
+  | some "g" => { kind := .race }
   | _ => {}
 
 def stepAccept (s : St) (line : String) : St × String :=
@@ -692,6 +740,9 @@ def stepAccept (s : St) (line : String) : St × String :=
         let (m', o) := stepM s.m ws
         if o == obs then ({ s with m := m' }, "ok")
         else ({ s with m := m', dead := true }, "REJECT model: " ++ o)
+      | .race =>
+        let o := stepG ws
+        if o == obs then (s, "ok") else (s, "REJECT model: " ++ o)
       | .none => (s, "REJECT op before reset")
   | none => (s, "REJECT bad-line")
 
@@ -702,6 +753,7 @@ def stepModel (s : St) (line : String) : St × String :=
   else match s.kind with
     | .wf => let (w', m) := stepW s.w ws; ({ s with w := w' }, m)
     | .multi => let (m', o) := stepM s.m ws; ({ s with m := m' }, o)
+    | .race => (s, stepG ws)
     | _ => (s, "?")
 
 /-! ## the property predicate on implementation observations (`spec` mode) -/
@@ -777,7 +829,6 @@ def parseWEv (w : String) : Option WEv :=
     | _ => none
   | [] => none
 
-def viol (sig why : String) : String := s!"VIOLATION C15/{sig} {why}"
 
 /-- one observed waterfall event -/
 def specWEv (s : SpecS) : WEv → Except String SpecS
@@ -1046,6 +1097,7 @@ def stepSpec (s : SpecS) (line : String) : SpecS × String :=
           | some o => specS s ws o
           | none => .error (viol "unparsable-observation" obs)
         | .multi => (specM s.svcs ws obs).map fun v => { s with svcs := v }
+        | .race => (specG ws obs).map fun _ => s
         | .none => .error "bad-op"
       match r with
       | .ok s' => (s', "ok")
